@@ -77,7 +77,7 @@ func main() {
 	eager := flag.String("eager", "", "||-separated runtime-panic sites whose unwinding is executed eagerly")
 	feasSched := flag.Bool("feas-sched", false, "solver feasibility checks at loop back edges in sched mode too")
 	unwindFn := flag.String("unwind-fn", "", "per-function unwinding bounds: Name=n,Name=n")
-	settleFeas := flag.Int("settle-feas", 0, "solver feasibility pruning of resting configs when a goroutine has more than this many (0 = off)")
+	settleFeas := flag.Int("settle-feas", 8, "solver feasibility pruning of resting configs when a goroutine has more than this many (0 = off)")
 	eagerAll := flag.Bool("eager-all", false, "execute every potential runtime panic eagerly")
 	instrDir := flag.String("instrument", "", "write instrumented copies of the package sources (for native schedule replay) into this directory and exit")
 	flag.Parse()
@@ -422,7 +422,19 @@ func main() {
 					or.Detail = fmt.Sprintf("solver disagreement: %s=%s %s=%s", *solver, r.Status, *cross, r2.Status)
 				}
 			}
-			if r.Status == "sat" && qq.want == "unsat" && or.Status == "sat" {
+			if r.Status == "sat" && len(TS.ufs) == 0 {
+				// sanity: the returned model must satisfy everything that was asserted (evaluated by the
+				// engine's own term evaluator); otherwise the verdict is not trusted
+				memo := map[int]uint64{}
+				for _, a := range asserts {
+					if Eval(a, r.Model, memo) == 0 {
+						or.Status = "error"
+						or.Detail = "solver model does not satisfy an asserted term: " + a.String()
+						break
+					}
+				}
+			}
+			if r.Status == "sat" && (qq.want == "unsat" || qq.id == "harness-end" || qq.id == "quiescent") && or.Status == "sat" {
 				or.Nondets = map[string]string{}
 				for _, n := range e.nondetOrd {
 					t := e.nondets[n]
